@@ -21,7 +21,7 @@ def split_known(pid, viols):
     return known, unknown
 
 
-def run_standin(pid, cfg, tier, seed, thorough=False):
+def run_standin(pid, cfg, tier, seed, thorough=False, escalate=False):
     t0 = time.time()
     kind = cfg.get("kind", "sched")
     if kind == "sched":
@@ -30,7 +30,7 @@ def run_standin(pid, cfg, tier, seed, thorough=False):
         n_max = cfg.get("n_thorough", 4) if thorough else cfg.get("n_quick", 3)
         sps = cfg.get("samples_thorough", 6) if thorough else cfg.get("samples_quick", 3)
         r = sweep([pid], n_max=n_max, seed=seed, samples_per_shape=sps, stop_at_first=False, allow_fail=cfg.get("fail", False), allow_active=cfg.get("active", False),
-                  budget_runs=cfg.get("budget_thorough", 60000) if thorough else cfg.get("budget_quick", 6000))
+                  budget_runs=cfg.get("budget_thorough", 60000) if (thorough or escalate) else cfg.get("budget_quick", 6000), escalate=escalate)
         known, unknown = split_known(pid, r["violations"])
         # replay the witnesses of the open known findings
         from checklib.main import open_findings
@@ -41,7 +41,7 @@ def run_standin(pid, cfg, tier, seed, thorough=False):
                 msgs = run_sched_witness(f["witness"], [pid]).get(pid, [])
                 if any(f["harness_tag"] in m for m in msgs):
                     known[f["id"]] = known.get(f["id"], 0) + 1
-        summary = dict(name=f"controlled-scheduler sweep for {pid}", bounded=True, bound=f"all DAG shapes with <= {n_max} nodes x {sps} random attribute assignments per shape (seed {seed}) x ALL completion orders",
+        summary = dict(name=f"controlled-scheduler sweep for {pid}", bounded=True, bound=f"deterministic phases (all resource assignments on <= 3 nodes, flag key pairs, double references, single failing node" + (", all uniform-resource 4-node shapes" if escalate else "") + f") + all DAG shapes with <= {n_max} nodes x {sps} random attribute assignments per shape (seed {seed}); ALL completion orders and both iteration orders of a finished batch",
                        runs=r["runs"], worlds=r["worlds"], distinct=r["distinct"], violations=len(unknown), known_finding_hits=known, seconds=round(time.time() - t0, 2), samples=r["samples"][:2])
         return dict(summary=summary, violations=unknown, known=known)
     if kind == "custom":
